@@ -1,7 +1,7 @@
 """C13 - the failure report is empty only for identical text and shows the true edit."""
-import collections, itertools
+import collections, itertools, os, shutil, subprocess
 from runner import Prop
-from common import hx, unhx
+from common import hx, unhx, REPO, GOENV
 
 
 class C13(Prop):
@@ -132,6 +132,41 @@ class C13(Prop):
                 cases.append({"ci": False, "updvar": "unset", "colour": False, "ops": ops, "meta": {"exh": True}})
             self.exhaustive_pairs = len(seqs) ** 2
         return cases
+
+    def extra_run(self, tier, seed, workdir):
+        """Black box: NO_COLOR mode is decoded from the REAL environment when the colors package is initialised (the white-box
+        harness sets colors.NOCOLOR itself). A real `go test` binary with a failing MatchSnapshot prints its report and summary:
+        with NO_COLOR set (to any value) the output holds no escape sequence; without it (and no editor hint in `_`) it does."""
+        from C05 import BB_TEST
+        mod = os.path.join(workdir, "bbcolor")
+        os.makedirs(mod, exist_ok=True)
+        open(os.path.join(mod, "go.mod"), "w").write("module bb\n\ngo 1.22\n\nrequire github.com/gkampitakis/go-snaps v0.0.0\n\nreplace github.com/gkampitakis/go-snaps => %s\n" % REPO)
+        shutil.copy(os.path.join(REPO, "go.sum"), os.path.join(mod, "go.sum"))
+        open(os.path.join(mod, "m_test.go"), "w").write(BB_TEST)
+        env = {k: v for k, v in GOENV.items() if k not in ("NO_COLOR", "_", "CI", "UPDATE_SNAPS")}
+        binp = os.path.join(workdir, "bbcolor.test")
+        p = subprocess.run(["go", "test", "-c", "-vet=off", "-o", binp, "."], cwd=mod, env=env, stdout=subprocess.PIPE, stderr=subprocess.STDOUT, text=True, errors="replace")
+        if p.returncode != 0:
+            return [{"msg": "black-box build failed: " + p.stdout[-800:]}], {}
+        snapdir = os.path.join(mod, "__snapshots__")
+        shutil.rmtree(snapdir, ignore_errors=True)
+        run = lambda e: subprocess.run([binp, "-test.count=1", "-test.v"], cwd=mod, env=dict(env, **e), stdout=subprocess.PIPE, stderr=subprocess.STDOUT, text=True, errors="replace")
+        run({"BB_VALUE": "line one\nline two", "BB_GONE": "1", "NO_COLOR": "1"})
+        fails = []
+        for nc in ("1", "", "0"):
+            q = run({"BB_VALUE": "line one\nline 2", "BB_GONE": "0", "NO_COLOR": nc})
+            if "Snapshot - " not in q.stdout or "\x1b[" in q.stdout:
+                fails.append({"msg": "black box: NO_COLOR=%r set in the environment, the report %s" % (nc, "holds escape sequences" if "\x1b[" in q.stdout else "is missing")})
+        for hint in ("/opt/Visual Studio/bin/x", "/usr/share/code/code"):
+            # (the library also switches colours off when the `_` variable hints at the VS Code output panel)
+            q = run({"BB_VALUE": "line one\nline 2", "BB_GONE": "0", "_": hint})
+            if "\x1b[" in q.stdout:
+                fails.append({"msg": "black box: _=%r (editor output panel), the report holds escape sequences" % hint})
+        q = run({"BB_VALUE": "line one\nline 2", "BB_GONE": "0", "_": "/usr/bin/go"})
+        if "\x1b[" not in q.stdout:
+            fails.append({"msg": "black box: NO_COLOR not set, yet the report holds no colour sequence"})
+        shutil.rmtree(snapdir, ignore_errors=True)
+        return fails, {"black_box_color_runs": 6}
 
     def extra_coverage(self):
         if getattr(self, "exhaustive_pairs", 0):
